@@ -150,6 +150,12 @@ func renderXML(f xFile) string {
 	b.WriteString("  </enums>\n  <messages>\n")
 	for _, m := range f.msgs {
 		fmt.Fprintf(&b, "    <message id=\"%d\" name=\"%s\">\n      <description>A message.</description>\n", m.id, m.name)
+		switch m.id % 4 { // elements of the schema the generator must skip without losing its place
+		case 1:
+			b.WriteString("      <wip/>\n")
+		case 2:
+			b.WriteString("      <deprecated since=\"2020-01\" replaced_by=\"OTHER\">Replaced.</deprecated>\n")
+		}
 		ext := false
 		for _, x := range m.fields {
 			if x.ext && !ext {
@@ -160,7 +166,11 @@ func renderXML(f xFile) string {
 			if x.enum != "" {
 				en = fmt.Sprintf(" enum=\"%s\"", x.enum)
 			}
-			fmt.Fprintf(&b, "      <field type=\"%s\" name=\"%s\"%s units=\"m\">A field.</field>\n", x.ty, x.name, en)
+			if len(x.name)%3 == 0 {
+				fmt.Fprintf(&b, "      <field type=\"%s\" name=\"%s\"%s units=\"m\" invalid=\"UINT16_MAX\">A field with <b>markup</b> inside.</field>\n", x.ty, x.name, en)
+			} else {
+				fmt.Fprintf(&b, "      <field type=\"%s\" name=\"%s\"%s units=\"m\">A field.</field>\n", x.ty, x.name, en)
+			}
 		}
 		b.WriteString("    </message>\n")
 	}
@@ -486,9 +496,20 @@ func randMsgName(r *rngT, used map[string]bool) string {
 func randEnumValue(r *rngT, bitmask bool, i int) (string, uint64) {
 	var v uint64
 	if bitmask {
-		v = uint64(1) << uint(i)
+		// the first flags in order, then flags anywhere in the 64 bits (distinct positions: i, 8+i*7 ...)
+		pos := uint(i)
+		if i >= 2 && r.bool() {
+			pos = uint(8 + i*11)
+		}
+		v = uint64(1) << pos
+		if r.Intn(3) == 0 {
+			return fmt.Sprintf("2**%d", pos), v
+		}
 	} else {
 		v = uint64(i*3 + r.Intn(3))
+		if r.Intn(6) == 0 { // large values, distinct per position
+			v = uint64(1)<<uint(20+i*8) + uint64(r.Intn(1000))
+		}
 	}
 	switch r.Intn(5) {
 	case 0:
